@@ -146,10 +146,11 @@ func (c *countingReader) Read(p []byte) (int, error) {
 		atomic.AddInt64(&c.after, 1)
 	}
 	if c.trigger > 0 && n == c.trigger {
-		atomic.StoreInt32(&c.fired, 1)
 		if c.onTrig != nil {
 			c.onTrig()
 		}
+		// only reads that start after cancel() has returned count as "after the cancellation"
+		atomic.StoreInt32(&c.fired, 1)
 	}
 	if c.failAt > 0 && n >= c.failAt {
 		atomic.StoreInt32(&c.fired, 1)
